@@ -739,18 +739,20 @@ func (s *clientSocket) registerAckHandler(f any, timeout time.Duration) (id uint
 		delete(s.acks, id)
 		s.acksMu.Unlock()
 
-		remove := func(slice []sendBufferItem, s int) []sendBufferItem {
-			return append(slice[:s], slice[s+1:]...)
-		}
-
+		// Remove the buffered packets (the frames) of this ack ID. Keep the others.
+		// (Don't remove from the slice while ranging over it: a packet with attachments
+		// has several entries, and the indexes go stale after the first removal.)
 		s.sendBufferMu.Lock()
-		for i, packet := range s.sendBuffer {
+		defer s.sendBufferMu.Unlock()
+		var kept []sendBufferItem
+		for _, packet := range s.sendBuffer {
 			if packet.ackID != nil && *packet.ackID == id {
 				s.debug.Log("Removing packet with ack ID", id)
-				s.sendBuffer = remove(s.sendBuffer, i)
+				continue
 			}
+			kept = append(kept, packet)
 		}
-		s.sendBufferMu.Unlock()
+		s.sendBuffer = kept
 	})
 	if err != nil {
 		panic(err)
